@@ -37,6 +37,7 @@ type FloatV struct {
 	Finite bool // an input the properties' domains keep finite (coordinates, thresholds)
 	Sym    int  // >0: identity of this unknown; State.fsyms keeps the interval comparisons with constants have established
 	Input  bool // the unknown is a direct input (coordinate, parameter), independent of every other input
+	Term   *fterm // Interp.Terms only: the rational function of identified unknowns this value denotes
 }
 
 type StrV struct {
